@@ -472,7 +472,8 @@ End Lint.
 Definition wfc (c : ch) : Prop :=
   raw c <> [] /\
   (forall b, In b (raw c) -> b < 128 -> raw c = [b] /\ cp c = b) /\
-  (cp c < 128 -> raw c = [cp c]).
+  (cp c < 128 -> raw c = [cp c]) /\
+  (cp c < 128 -> valid c = true).
 Definition wft (t : list ch) : Prop := forall c, In c t -> wfc c.
 
 Fixpoint lastc {A} (l : list A) : option A :=
